@@ -752,3 +752,159 @@ Section KeysR.
     - intros H body NB M. unfold cgetk. rewrite ksteps_rkey by (split; assumption). apply (RN H _ M).
   Qed.
 End KeysR.
+
+(** ** [lookup_mut] / in-place modification with regex leaves present *)
+Section AccessR.
+  Variable V : Type.
+  Variable re_ok : bytes -> bool.
+  Variable re_match : bytes -> bytes -> bool.
+  Notation trie := (trie V).
+  Notation wfr := (wfr V).
+  Notation cgetr := (cgetr V).
+
+  (** a regex leaf holds nothing below itself *)
+  Lemma access_leaf_nonempty k v steps f :
+    canonr steps -> fst (access_w re_match (leaf k v : trie) steps false f) = None.
+  Proof. intros C. inversion C; subst; cbn [access_w leaf aget]; try rewrite andb_false_r; reflexivity. Qed.
+
+  (** [lookup_mut] finds the key's own binding when there is one; otherwise it
+      finds nothing, or — the regex fall-back on a literal left-most label —
+      the binding of a regex hostname, whose stored key contains a '/' *)
+  Lemma access_spec steps : canonr steps -> forall (t : trie) f,
+      wfr t ->
+      match cgetr t steps with
+      | Some x => fst (access_w re_match t steps false f) = Some x
+      | None => fst (access_w re_match t steps false f) = None \/
+                exists k v ss l, fst (access_w re_match t steps false f) = Some (k, v) /\ mem SLASH k = true /\
+                                 steps = map lab ss ++ [KLab l true]
+      end.
+  Proof.
+    induction 1 as [|l D NS|src|s rest D C IH]; intros [kv w ch rx] f W;
+      inversion W as [? ? ? ? A1 F1 F2 F3 ND]; subst.
+    - cbn [access_w cgetr t_wild]. destruct w as [[k v]|]; [reflexivity|]. left; reflexivity.
+    - cbn [access_w cgetr t_children]. destruct (aget l ch) as [c|] eqn:G.
+      + destruct (wfr_child_leaf V _ _ _ _ _ _ W G D) as (k & v & ->). reflexivity.
+      + rewrite andb_false_r.
+        assert (GO : forall post pre,
+                   Forall (is_rleaf V) post ->
+                   let r := fst ((fix go (pre post : list (bytes * trie)) : option (bytes * V) * trie :=
+                           match post with
+                           | [] => (None, Node kv w ch rx)
+                           | (src, sub) :: r =>
+                             if re_match src (seg_body l)
+                             then let '(o, sub') := access_w re_match sub [] false f in
+                                  (o, Node kv w ch (pre ++ (src, sub') :: r))
+                             else go (pre ++ [(src, sub)]) r
+                           end) pre post) in
+                   r = None \/ exists k v, r = Some (k, v) /\ mem SLASH k = true).
+        { induction post as [|[src sub] post IHp]; intros pre Fp; [left; reflexivity|].
+          inversion Fp as [|? ? (k0 & v0 & E & SL) Fp']; subst. cbn [snd] in E. subst sub.
+          destruct (re_match src (seg_body l)).
+          - right. exists k0, v0. split; [reflexivity|exact SL].
+          - apply IHp; exact Fp'. }
+        destruct (GO rx [] F3) as [H|(k & v & H & SL)]; [left; exact H|].
+        right. exists k, v, [], l. split; [exact H|]. split; [exact SL|reflexivity].
+    - cbn [access_w cgetr t_regexps]. destruct (aget src rx) as [sub|] eqn:G.
+      + destruct (wfr_rx_leaf V _ _ _ _ _ _ W G) as (k & v & -> & _). reflexivity.
+      + left; reflexivity.
+    - cbn [access_w cgetr t_children]. destruct (aget s ch) as [c|] eqn:G.
+      + specialize (IH c f (wfr_child_dotted V _ _ _ _ _ _ W G D)).
+        destruct (access_w re_match c rest false f) as [o c']. cbn [fst] in *.
+        destruct (cgetr c rest); [exact IH|].
+        destruct IH as [H|(k & v & ss & l & H & SL & E)]; [left; exact H|].
+        right. exists k, v, (s :: ss), l. split; [exact H|]. split; [exact SL|]. cbn [map app lab]. f_equal. exact E.
+      + rewrite andb_false_r.
+        assert (GO : forall post pre,
+                   Forall (is_rleaf V) post ->
+                   fst ((fix go (pre post : list (bytes * trie)) : option (bytes * V) * trie :=
+                           match post with
+                           | [] => (None, Node kv w ch rx)
+                           | (src, sub) :: r =>
+                             if re_match src (seg_body s)
+                             then let '(o, sub') := access_w re_match sub rest false f in
+                                  (o, Node kv w ch (pre ++ (src, sub') :: r))
+                             else go (pre ++ [(src, sub)]) r
+                           end) pre post) = None).
+        { induction post as [|[src sub] post IHp]; intros pre Fp; [reflexivity|].
+          inversion Fp as [|? ? (k0 & v0 & E & SL) Fp']; subst. cbn [snd] in E. subst sub.
+          destruct (re_match src (seg_body s)); [|apply IHp; exact Fp'].
+          pose proof (access_leaf_nonempty k0 v0 rest f C) as AL.
+          destruct (access_w re_match (leaf k0 v0) rest false f) as [o sub']. cbn [fst] in *. exact AL. }
+        left. apply GO; exact F3.
+  Qed.
+
+  Definition modr (t : trie) (steps : list kstep) (f : V -> V) : trie := snd (access_w re_match t steps false f).
+
+  (** in-place modification of a key that is present *)
+  Lemma modr_same steps : canonr steps -> forall (t : trie) f x,
+      wfr t -> cgetr t steps = Some x -> cgetr (modr t steps f) steps = Some (fst x, f (snd x)).
+  Proof.
+    unfold modr.
+    induction 1 as [|l D NS|src|s rest D C IH]; intros [kv w ch rx] f x W H.
+    - cbn [access_w cgetr t_wild] in *. subst w. destruct x as [k v]. reflexivity.
+    - cbn [access_w cgetr t_children] in *. destruct (aget l ch) as [c|] eqn:G; [|discriminate].
+      destruct (wfr_child_leaf V _ _ _ _ _ _ W G D) as (k & v & ->). cbn [cgetr leaf t_kv] in H. inversion H; subst.
+      cbn [access_w leaf snd cgetr t_children]. rewrite aget_aset_same by congruence. reflexivity.
+    - cbn [access_w cgetr t_regexps] in *. destruct (aget src rx) as [sub|] eqn:G; [|discriminate].
+      destruct (wfr_rx_leaf V _ _ _ _ _ _ W G) as (k & v & -> & _). cbn [cgetr leaf t_kv] in H. inversion H; subst.
+      cbn [access_w leaf snd cgetr t_regexps]. rewrite aget_aset_same by congruence. reflexivity.
+    - cbn [access_w cgetr t_children] in *. destruct (aget s ch) as [c|] eqn:G; [|discriminate].
+      specialize (IH c f x (wfr_child_dotted V _ _ _ _ _ _ W G D) H).
+      destruct (access_w re_match c rest false f) as [o c']. cbn [snd] in *.
+      cbn [cgetr t_children]. rewrite aget_aset_same by congruence. exact IH.
+  Qed.
+
+  Lemma modr_other steps : canonr steps -> forall steps' (t : trie) f x,
+      canonr steps' -> wfr t -> cgetr t steps = Some x -> steps <> steps' ->
+      cgetr (modr t steps f) steps' = cgetr t steps'.
+  Proof.
+    unfold modr.
+    induction 1 as [|l D NS|src|s rest D C IH]; intros steps' [kv w ch rx] f x C' W H NE.
+    - cbn [access_w cgetr t_wild] in *. subst w. destruct x as [k v]. cbn [snd].
+      inversion C'; subst; try congruence; reflexivity.
+    - cbn [access_w cgetr t_children] in *. destruct (aget l ch) as [c|] eqn:G; [|discriminate].
+      destruct (wfr_child_leaf V _ _ _ _ _ _ W G D) as (k & v & ->). cbn [access_w leaf snd].
+      inversion C' as [|l' D' NS'|src'|s' rest' D' C'']; subst; cbn [cgetr t_children t_wild t_regexps]; try reflexivity.
+      + rewrite aget_aset_other by congruence. reflexivity.
+      + rewrite aget_aset_other by (intros ->; congruence). reflexivity.
+    - cbn [access_w cgetr t_regexps] in *. destruct (aget src rx) as [sub|] eqn:G; [|discriminate].
+      destruct (wfr_rx_leaf V _ _ _ _ _ _ W G) as (k & v & -> & _). cbn [access_w leaf snd].
+      inversion C' as [|l' D' NS'|src'|s' rest' D' C'']; subst; cbn [cgetr t_children t_wild t_regexps]; try reflexivity.
+      rewrite aget_aset_other by congruence. reflexivity.
+    - cbn [access_w cgetr t_children] in *. destruct (aget s ch) as [c|] eqn:G; [|discriminate].
+      pose proof (wfr_child_dotted V _ _ _ _ _ _ W G D) as Wc.
+      destruct (access_w re_match c rest false f) as [o c'] eqn:EA. cbn [snd].
+      inversion C' as [|l' D' NS'|src'|s' rest' D' C'']; subst; cbn [cgetr t_children t_wild t_regexps]; try reflexivity.
+      + rewrite aget_aset_other by (intros ->; congruence). reflexivity.
+      + destruct (beq s' s) eqn:Es.
+        * apply beq_eq in Es; subst s'. rewrite aget_aset_same by congruence. rewrite G.
+          specialize (IH rest' c f x C'' Wc H ltac:(congruence)). rewrite EA in IH. exact IH.
+        * apply beq_neq in Es. rewrite aget_aset_other by exact Es. reflexivity.
+  Qed.
+
+  Lemma wfr_modr steps : canonr steps -> forall (t : trie) f x,
+      wfr t -> cgetr t steps = Some x -> wfr (modr t steps f).
+  Proof.
+    unfold modr.
+    induction 1 as [|l D NS|src|s rest D C IH]; intros [kv w ch rx] f x W H;
+      inversion W as [? ? ? ? A1 F1 F2 F3 ND]; subst.
+    - cbn [access_w cgetr t_wild] in *. subst w. destruct x as [k v]. cbn [snd]. constructor; assumption.
+    - cbn [access_w cgetr t_children] in *. destruct (aget l ch) as [c|] eqn:G; [|discriminate].
+      destruct (wfr_child_leaf V _ _ _ _ _ _ W G D) as (k & v & ->). cbn [access_w leaf snd].
+      constructor; auto.
+      + rewrite aget_aset_other by congruence. exact A1.
+      + apply Forall_aset_key; [exact F1|]. cbn [fst snd]. congruence.
+      + apply Forall_aset_key; [exact F2|]. cbn [fst snd]. intros _. exists k, (f v). reflexivity.
+    - cbn [access_w cgetr t_regexps] in *. destruct (aget src rx) as [sub|] eqn:G; [|discriminate].
+      destruct (wfr_rx_leaf V _ _ _ _ _ _ W G) as (k & v & -> & SL). cbn [access_w leaf snd].
+      constructor; auto.
+      + apply Forall_aset_key; [exact F3|]. exists k, (f v). split; [reflexivity|exact SL].
+      + rewrite map_fst_aset. exact ND.
+    - cbn [access_w cgetr t_children] in *. destruct (aget s ch) as [c|] eqn:G; [|discriminate].
+      specialize (IH c f x (wfr_child_dotted V _ _ _ _ _ _ W G D) H).
+      destruct (access_w re_match c rest false f) as [o c']. cbn [snd] in *. constructor; auto.
+      + rewrite aget_aset_other by (intros E; rewrite <- E in D; discriminate). exact A1.
+      + apply Forall_aset_key; [exact F1|]. cbn [fst snd]. intros _. exact IH.
+      + apply Forall_aset_key; [exact F2|]. cbn [fst snd]. congruence.
+  Qed.
+End AccessR.
